@@ -205,7 +205,7 @@ package filters
 //@ at call ToLiquid #1 before assert inOrder: arg0 == a[n] && n < len(a)
 //@ at call ToLiquid #1: n = n + 1
 //@ at call ToLiquid #1: cur = result
-//@ at call Sprint #1 before assert unwrapped: len(arg0) == 1 && arg0[0] == cur && cur != nil
+//@ at call Sprint #1 before assert unwrapped: arg0 == cur && cur != nil
 //@ loop 1 invariant count: n == _i && fresh(ss) && sameold("S$Val")
 //@ ensures all: n == len(a)
 
